@@ -25,6 +25,7 @@ def run():
     cli.build_wac()
     from . import types, agg, wac
     types.artefacts("quick")
+    types.res_artefacts()
     agg.artefacts("quick")
     wac.artefacts("quick")
     from . import targets, decl
